@@ -417,7 +417,17 @@ func TestVerifC08Ambiguity(t *testing.T) {
 		var runErr error
 		p := verifkit.Catch(func() {
 			flags := &Flags{ServerCommand: []string{"/nonexistent/verif-no-such-server"}, MaxServers: 2, Parallelism: 2}
-			_, runErr = run(cases, parsePatterns(kf), parsePatterns(kl), nil, nil,
+			// a --run / --skip selection does not change which names are ambiguous
+			var runPats, skipPats *testTrie
+			switch i % 4 {
+			case 1:
+				runPats = parsePatterns([]string{names[(i/4)%len(names)]})
+			case 2:
+				skipPats = parsePatterns([]string{names[(i/4)%len(names)]})
+			case 3:
+				runPats, skipPats = parsePatterns([]string{"S/**"}), parsePatterns([]string{names[(i/4)%len(names)], names[(i/4+1)%len(names)]})
+			}
+			_, runErr = run(cases, parsePatterns(kf), parsePatterns(kl), runPats, skipPats,
 				map[string]*conformancev1.TestSuite{"s.yaml": suite}, internal.NewPrinter(discard{}), internal.NewPrinter(discard{}), flags)
 		})
 		if p != nil {
